@@ -265,7 +265,7 @@ func main() {
 Require Import Verif.Relmod.Model Verif.Relmod.Run Verif.Gen.RelmodShape Verif.Base.Harness.
 Definition At := Build_attrs. Definition PT := Build_ptype. Definition Pa := Build_param. Definition Ep := Build_endpoint.
 Definition Co := Build_constr. Definition Fi := Build_field. Definition Td := Build_typedecl. Definition Vi := Build_view.
-Definition Ap := Build_app. Definition R := mk. Definition T := true. Definition F := false.
+Definition Ap := Build_app. Definition R := mk. Definition R2 := mk2. Definition T := true. Definition F := false.
 Definition SL := SLeaf. Definition SB := SBlock. Definition SA := SAlt.`
 	footer := `Definition M := Eval vm_compute in mismatches (c17_ok child_index_mode alt_index_mode) cases. Print M.`
 	cs := c.NewCases("C17", header, "c17_case", footer, 12)
